@@ -995,7 +995,11 @@ impl SeqSpec for MapSpec {
                         check!(r == m, "insert_return", "insert({k},{v}) returned {:?}, model says {:?}", r, m);
                     }
                 }
-                Err(_e) => { /* refused: model unchanged; observers will verify nothing changed */ }
+                Err(e) => {
+                    // refused: model unchanged; observers will verify nothing changed — but only refusals the unchanged
+                    // library makes as well are tolerated
+                    zverif::core::tolerate_refusal(&self.name(), &format!("insert/present={}/len={}", st.model.contains_key(&k), st.model.len().min(9)), &e)?;
+                }
             },
             Op::Remove(k) => match st.map.remove(k) {
                 Ok(r) => {
@@ -1005,7 +1009,9 @@ impl SeqSpec for MapSpec {
                         st.removed = true;
                     }
                 }
-                Err(_e) => {}
+                Err(e) => {
+                    zverif::core::tolerate_refusal(&self.name(), &format!("remove/present={}", st.model.contains_key(&k)), &e)?;
+                }
             },
             Op::SetMut(k) => {
                 if let Some(found) = st.map.set_via_get_mut(k, v) {
